@@ -16,13 +16,7 @@ use ckc_rs::cards::six::Six;
 use ckc_rs::cards::HandRanker;
 use serde_json::{json, Value};
 
-pub fn profile() -> &'static str {
-    if cfg!(debug_assertions) {
-        "checked"
-    } else {
-        "unchecked"
-    }
-}
+use crate::engine::profile;
 
 #[inline]
 fn sym(i: u8) -> u32 {
@@ -238,9 +232,14 @@ fn multisets<const N: usize, F: Fast<N>>(run: &mut Run, stratum: u64) -> PResult
             };
             let perm = perm_from_index::<N>(mix2(seed ^ 0x0DE5, p) % nfact);
             let wp = engine::apply_perm(&w, &perm);
+            let mut wd = w;
+            wd.reverse();
             let r = guard(|| {
                 if !F::ok(w, blanks > 0, expected) {
                     return Some(w);
+                }
+                if !F::ok_light(wd, blanks > 0, expected) {
+                    return Some(wd);
                 }
                 if !F::ok_light(wp, blanks > 0, expected) {
                     return Some(wp);
@@ -263,6 +262,8 @@ fn multisets<const N: usize, F: Fast<N>>(run: &mut Run, stratum: u64) -> PResult
                 Err(_) => {
                     if examine(&w).is_err() {
                         w
+                    } else if examine(&wd).is_err() {
+                        wd
                     } else {
                         wp
                     }
@@ -277,7 +278,7 @@ fn multisets<const N: usize, F: Fast<N>>(run: &mut Run, stratum: u64) -> PResult
     );
     let total = multichoose(53, N as u64);
     run.generator(
-        &format!("{}-slot multisets over 52 cards + blank{} (+1 seeded order)", N, if stratum > 1 { format!(", seeded 1-in-{} stratum", stratum) } else { String::new() }),
+        &format!("{}-slot multisets over 52 cards + blank{} (ascending, descending + 1 seeded slot order)", N, if stratum > 1 { format!(", seeded 1-in-{} stratum", stratum) } else { String::new() }),
         if stratum > 1 { "exhaustive-stratum" } else { "exhaustive" },
         Some(total),
         acc.hands,
@@ -478,43 +479,6 @@ pub fn run(run: &mut Run) -> PResult {
     if run.sub.is_some() {
         return Ok(());
     }
-    // the other build profile: re-execute the twin binary and merge
-    let twin = run.root.join("harness/target").join(if profile() == "checked" { "unchecked" } else { "release" }).join("ckc-verif");
-    if !twin.exists() {
-        panic!("twin binary {} missing: run ./check build", twin.display());
-    }
-    let out = std::process::Command::new(&twin)
-        .arg("C05")
-        .arg("--tier")
-        .arg(run.tier.name())
-        .arg("--seed")
-        .arg(format!("{}", run.seed as i64))
-        .arg("--sub")
-        .arg(if profile() == "checked" { "unchecked" } else { "checked" })
-        .env("VERIF_ROOT", &run.root)
-        .stderr(std::process::Stdio::inherit())
-        .output()
-        .expect("spawn twin");
-    let text = String::from_utf8_lossy(&out.stdout).to_string();
-    let mut merged = false;
-    for line in text.lines() {
-        if let Some(rest) = line.strip_prefix("SUBRESULT ") {
-            let (tag, js) = rest.split_once(' ').unwrap_or(("?", "{}"));
-            let ev: Value = serde_json::from_str(js).expect("sub result json");
-            run.merge_sub(tag, &ev);
-            merged = true;
-        } else {
-            println!("{}", line);
-        }
-    }
-    match out.status.code() {
-        Some(0) if merged => {}
-        Some(1) => {
-            run.violations += 1;
-            return Err(engine::Stop);
-        }
-        c => panic!("twin binary ended with {:?}", c),
-    }
     run.exhaustive = thorough_all(run.tier);
     run.exhaustive_note = if run.exhaustive { "all multisets of 5/6/7 slots, all 53^5 ordered five-slot arrays, all 2^32 keys, in both build profiles".into() } else { "complete except: seven-slot multisets are a seeded 1-in-16 stratum, ordered five-slot arrays of five distinct cards are left to C01, and keys stop at 2^30 (thorough closes both)".into() };
     Ok(())
@@ -525,23 +489,6 @@ fn thorough_all(t: Tier) -> bool {
 }
 
 pub fn check_case(clause: &str, case: &Value) -> Result<(), String> {
-    let want = case["profile"].as_str().unwrap_or("checked");
-    if want != profile() {
-        // hand over to the twin binary built with the recorded profile
-        let root = engine::verif_root();
-        let twin = root.join("harness/target").join(if want == "unchecked" { "unchecked" } else { "release" }).join("ckc-verif");
-        let tmp = root.join("replays").join(format!("twin-{}.json", std::process::id()));
-        let _ = std::fs::create_dir_all(root.join("replays"));
-        std::fs::write(&tmp, serde_json::to_string(&json!({"clause": clause, "case": case})).unwrap()).map_err(|e| e.to_string())?;
-        let out = std::process::Command::new(&twin).arg("C05").arg("--replay").arg(&tmp).env("VERIF_ROOT", &root).output().map_err(|e| format!("cannot run {}: {}", twin.display(), e))?;
-        let _ = std::fs::remove_file(&tmp);
-        let text = String::from_utf8_lossy(&out.stdout).to_string();
-        return match out.status.code() {
-            Some(0) => Ok(()),
-            Some(1) => Err(text.lines().find(|l| l.trim_start().starts_with("what")).unwrap_or("violation in twin profile").trim().to_string()),
-            c => panic!("twin replay ended with {:?}: {}", c, text),
-        };
-    }
     match clause {
         "C05.key_no_panic" => key_examine(case["key"].as_u64().ok_or("key missing")?),
         "C05.no_panic" | "C05.blank_five_invalid" | "C05.clean_value" => {
